@@ -1,7 +1,139 @@
-/- Line-protocol engine for C17 — stub, to be filled in. -/
-import CV.Proto
+/- Line-protocol engine for C17 (peering import / export). See go/overlay/internal/verifharness/c17.
+
+State: the mini-catalog `CV.Peer.Cat`, mirrored op by op with the real state store.
+Ops (tokens separated by one space; strings are `CV.encS` tokens; `-` is an empty list / absent part):
+  reset
+  reg   <peer> <node> <nodeid> <addr> <svc> <chks>      svc  = sid;name;port      chks = chk|chk|…
+  dereg <peer> <node> <sid> <cid>                       (FSM precedence: service, else check, else node)
+  upd   <peer> <service> <insts>                        inst = node;nodeid;addr;sid;sname;port;chks   insts = inst,inst,…
+  list  <peer> <names>                                  names = a,b,…
+  csn   <peer> <service>
+  dump
+  exp   <peer> <cfg> <typical> <chains> <connect>       cfg = name;peer+peer+…,…
+chk = node~cid~sid~sname~status
+-/
+import CV.Peer
 namespace CV.Engine.C17
-open CV
-def step (_ : Unit) (_toks : List String) : Unit × String := ((), "bad-op")
-def engine : Engine := { State := Unit, init := (), step := step }
+open CV CV.Peer
+
+def sortStrs (l : List String) : List String := l.mergeSort (fun a b => decide (a ≤ b))
+
+def decOpt (sep : String) (tok : String) : List String := if tok == "-" then [] else tok.splitOn sep
+
+def parseChk (tok : String) : Option ChkDef :=
+  match tok.splitOn "~" with
+  | [n, c, i, sn, st] => do
+      let n ← decS n; let c ← decS c; let i ← decS i; let sn ← decS sn; let st ← decS st
+      pure ⟨n, c, i, sn, st⟩
+  | _ => none
+
+def parseChks (tok : String) : Option (List ChkDef) := (decOpt "|" tok).mapM parseChk
+
+def parseSvc (tok : String) : Option (Option SvcDef) :=
+  if tok == "-" then some none else
+  match tok.splitOn ";" with
+  | [i, n, p] => do
+      let i ← decS i; let n ← decS n; let p ← p.toNat?
+      pure (some ⟨i, n, p⟩)
+  | _ => none
+
+def parseInst (tok : String) : Option Inst :=
+  match tok.splitOn ";" with
+  | [n, id, a, i, sn, p, ks] => do
+      let n ← decS n; let id ← decS id; let a ← decS a; let i ← decS i; let sn ← decS sn
+      let p ← p.toNat?; let ks ← parseChks ks
+      pure ⟨⟨n, id, a⟩, ⟨i, sn, p⟩, ks⟩
+  | _ => none
+
+def parseEntry (tok : String) : Option ExpEntry :=
+  match tok.splitOn ";" with
+  | [n, ps] => do
+      let n ← decS n; let ps ← (decOpt "+" ps).mapM decS
+      pure ⟨n, ps⟩
+  | _ => none
+
+def errName : Err → String
+  | .missingNode => "missing-node"
+  | .missingService => "missing-service"
+  | .nodeReserved => "node-reserved"
+  | .checkNodeMismatch => "check-node-mismatch"
+
+def encOp : Op → String
+  | .reg r =>
+    let s := match r.svc with | some s => encS s.sid | none => "-"
+    let ks := if r.chks.isEmpty then "-" else "+".intercalate (sortStrs (r.chks.map fun k => encS k.cid))
+    s!"r;{encS r.node.name};{s};{ks}"
+  | .deregSvc _ n i => s!"ds;{encS n};{encS i}"
+  | .deregChk _ n k => s!"dc;{encS n};{encS k}"
+  | .deregNode _ n => s!"dn;{encS n}"
+
+def encRes (r : Res) : String :=
+  if r.panic then "panic" else
+  let st := match r.err with | some e => "err:" ++ errName e | none => "ok"
+  s!"{st} log={encList (sortStrs (r.log.map encOp))}"
+
+def encChk (k : Chk) : String :=
+  s!"{encS k.cid}~{encS k.sid}~{encS k.sname}~{encS k.status}~{encS k.node}"
+
+def dump (c : Cat) : String :=
+  let ns := c.nodes.map fun x => s!"{encS x.peer};{encS x.name};{encS x.id};{encS x.addr}"
+  let ss := c.svcs.map fun x => s!"{encS x.peer};{encS x.node};{encS x.sid};{encS x.name};{x.port}"
+  let ks := c.chks.map fun x => s!"{encS x.peer};{encS x.node};{encS x.cid};{encS x.sid};{encS x.sname};{encS x.status}"
+  s!"N={encList (sortStrs ns)} S={encList (sortStrs ss)} C={encList (sortStrs ks)}"
+
+def encCSN (x : CSN) : String :=
+  let ks := sortStrs (x.chks.map encChk)
+  let kk := if ks.isEmpty then "-" else "|".intercalate ks
+  s!"{encS x.node.name};{encS x.node.id};{encS x.node.addr};{encS x.svc.node};{encS x.svc.sid};{encS x.svc.name};{x.svc.port};{kk}"
+
+def step (c : Cat) (toks : List String) : Cat × String :=
+  match toks with
+  | ["reset"] => ({}, "ok")
+  | ["dump"] => (c, dump c)
+  | ["reg", p, n, id, a, svc, ks] =>
+    match decS p, decS n, decS id, decS a, parseSvc svc, parseChks ks with
+    | some p, some n, some id, some a, some svc, some ks =>
+      match register c ⟨p, ⟨n, id, a⟩, svc, ks⟩ with
+      | .ok c' => (c', "ok")
+      | .error e => (c, "err:" ++ errName e)
+    | _, _, _, _, _, _ => (c, "bad-op")
+  | ["dereg", p, n, i, k] =>
+    match decS p, decS n, decS i, decS k with
+    | some p, some n, some i, some k =>
+      let op : Op := if i ≠ "" then .deregSvc p n i else if k ≠ "" then .deregChk p n k else .deregNode p n
+      match applyOp c op with
+      | .ok c' => (c', "ok")
+      | .error e => (c, "err:" ++ errName e)
+    | _, _, _, _ => (c, "bad-op")
+  | ["upd", p, sn, insts] =>
+    match decS p, decS sn, (decOpt "," insts).mapM parseInst with
+    | some p, some sn, some is =>
+      let r := handleUpdate c p sn is
+      (r.cat, encRes r)
+    | _, _, _ => (c, "bad-op")
+  | ["list", p, names] =>
+    match decS p, (decOpt "," names).mapM decS with
+    | some p, some ns =>
+      let r := handleList c p ns
+      (r.cat, encRes r)
+    | _, _ => (c, "bad-op")
+  | ["csn", p, sn] =>
+    match decS p, decS sn with
+    | some p, some sn =>
+      match csn c p sn with
+      | .ok xs => (c, encList (sortStrs (xs.map encCSN)))
+      | .error e => (c, "err:" ++ errName e)
+    | _, _ => (c, "bad-op")
+  | ["exp", p, cfg, typ, chains, conn] =>
+    match decS p, (decOpt "," cfg).mapM parseEntry, (decOpt "," typ).mapM decS,
+          (decOpt "," chains).mapM decS, (decOpt "," conn).mapM decS with
+    | some p, some cfg, some typ, some chains, some conn =>
+      let s := (sortStrs ((exportedFor cfg typ p).map encS)).eraseDups
+      let d := (sortStrs ((exportedChains cfg typ chains conn p).map encS)).eraseDups
+      (c, s!"S={encList s} D={encList d}")
+    | _, _, _, _, _ => (c, "bad-op")
+  | _ => (c, "bad-op")
+
+def engine : Engine := { State := Cat, init := {}, step := step }
+
 end CV.Engine.C17
